@@ -89,8 +89,8 @@ PROPS = {
         "rule": "packets of 0..2000 bytes and the limits x device response scripts (USART would-block bursts; CAN would-block and displaced-frame reports; serial port short writes of 1..6 bytes, all-one-byte writes, zero writes, interrupted, I/O errors, flush failure); distinct by input text; non-trivial = multi-frame packet or a non-empty response script",
         "explanation": "theorems usartSend_exact, canSend_exact, serialSend_exact, writeAll_spec + real try_send_packet against scripted devices; device log (digest), flush count and result compared; a differing line is a concrete C14 violation (model = wire image)",
     },
-    "C15": {"groups": {"proto_enum": Q(55987, 55987), "proto": Q(160000, 1500000)}, "rule": None, "explanation": "theorems dispatch_spec, tick_spec (+ reach_sorted for the handler table) + the real Protocol over a scripted Interface"},
-    "C16": {"groups": {"proto": Q(160000, 1500000), "psend_usart": Q(20000, 200000), "psend_can": Q(20000, 200000), "psend_serial": Q(20000, 200000)}, "rule": None, "explanation": "theorem sendPacket_spec + the real Protocol over a scripted Interface"},
+    "C15": {"groups": {"proto_enum": Q(55987, 55987), "proto_send_enum": Q(74898, 74898), "proto": Q(160000, 1500000)}, "rule": None, "explanation": "theorems dispatch_spec, tick_spec (+ reach_sorted for the handler table) + the real Protocol over a scripted Interface"},
+    "C16": {"groups": {"proto_send_enum": Q(74898, 74898), "proto": Q(160000, 1500000), "psend_usart": Q(20000, 200000), "psend_can": Q(20000, 200000), "psend_serial": Q(20000, 200000)}, "rule": None, "explanation": "theorem sendPacket_spec + the real Protocol over a scripted Interface"},
     "C17": {"groups": {"proto_enum": Q(55987, 55987), "proto": Q(160000, 1500000)}, "rule": None, "explanation": "theorems nextId_fresh, add_spec, remove_spec, reach_sorted, removed_never_called + the real Protocol over a scripted Interface"},
     "C18": {"groups": {"proto": Q(160000, 1500000)}, "rule": None, "explanation": "theorems exchangeLoop_first/timeout/error, exchangeAllLoop_spec, exchange_prefix + the real exchange_packet / exchange_packets instantiated for all 16 event types"},
     "C19": {
@@ -106,6 +106,7 @@ for k in ("C15", "C16", "C17", "C18"):
 
 
 ENUM_SCOPES = {
+    "proto_send_enum": "every history of at most 5 operations over {register a plain handler, register a capture-all handler whose callback sends to the device's own address (re-entrant loop-back), register a handler whose callback sends to another device, remove id 0, tick, send to own / other / broadcast address} on devices 0x0005 and 0xffff, the link delivering own / foreign / broadcast packets in turn and failing every second transmission (74898 histories)",
     "proto_enum": "every history of at most 6 operations over {register own-address handler, register capture-all handler, remove id 0 / 1 / 2, tick} on a device whose link alternately delivers a packet for it and a packet for another device (55987 histories)",
     "sched_usart_enum": "three packet sets (1, 2 and 1+3+1 frames): every placement of one or two would-blocks before any byte of the wire, and a would-block before every byte (14076 index points incl. fillers)",
     "sched_serial_enum": "the same packet sets on the serial port: one or two time-outs before any link frame / interrupts before any other byte, and all positions at once",
@@ -157,6 +158,6 @@ def nontrivial(group, inp, obs):
         return "+" in t[2] or (bool(m) and int(m.group(1)) > 8)
     if g.startswith("e2e"):
         return t[4] != "-" and "+" in t[5]
-    if g == "proto":
+    if g.startswith("proto"):
         return t[4].count(";") >= 2
     return True
